@@ -53,6 +53,23 @@ from myst_parser.warnings_ import MystWarnings
 from .options import TokenizeError, options_to_items
 
 
+_RE_NEWLINE = re.compile(r"\r\n|\r|\n")
+
+
+def split_lines(text: str) -> list[str]:
+    """Split text into lines at newlines only (``\\n``, ``\\r\\n``, ``\\r``), as markdown-it does.
+
+    Unlike ``str.splitlines``, the other characters that Python treats as line boundaries
+    (form feed, vertical tab, ``\\x1c``-``\\x1e``, ``\\x85``, U+2028, U+2029) stay inside their line,
+    so that text which markdown-it has already split into lines is not split differently.
+    """
+    lines = _RE_NEWLINE.split(text)
+    if lines[-1] == "":
+        # no empty last line for a trailing newline (or for empty text)
+        lines.pop()
+    return lines
+
+
 @dataclass
 class ParseWarnings:
     msg: str
@@ -118,12 +135,12 @@ def parse_directive_text(
         has_options_block = result.has_options
         options = result.options
         body_lines = result.content
-        content_offset = len(content.splitlines()) - len(body_lines)
+        content_offset = len(split_lines(content)) - len(body_lines)
     else:
         parse_warnings = []
         has_options_block = False
         options = {}
-        body_lines = content.splitlines()
+        body_lines = split_lines(content)
         content_offset = 0
 
     if not (directive_class.required_arguments or directive_class.optional_arguments):
@@ -181,7 +198,7 @@ def _parse_directive_options(
     # the remaining content is always a suffix of these lines
     # (re-splitting a joined string would lose a trailing blank line,
     # and with it the line offset of the body)
-    content_lines = content.splitlines()
+    content_lines = split_lines(content)
     if content.startswith("---"):
         line = None if line is None else line + 1
         content_lines = content_lines[1:]
